@@ -78,6 +78,9 @@ pub fn make_err(kind: io::ErrorKind, shape: u8) -> io::Error {
 pub enum Step {
     Pending,
     Chunk(usize),
+    /// the transport reports a transient failure of this kind without consuming anything; the bytes
+    /// are still there for the next read (a retryable condition: Interrupted, WouldBlock, a read timeout)
+    Fail(io::ErrorKind),
 }
 
 #[derive(Clone, Copy, Debug, PartialEq, Eq)]
@@ -113,6 +116,9 @@ pub struct ScriptedReader<'a> {
     /// the stream end is signalled by `Err(UnexpectedEof)` (as TLS wrappers do for a missing close_notify)
     /// instead of a read that fills nothing
     pub eof_as_error: bool,
+    /// number of transient failures (Step::Fail) reported so far
+    pub transients: Rc<Cell<u64>>,
+    pub last_transient: Rc<Cell<io::ErrorKind>>,
 }
 
 impl<'a> ScriptedReader<'a> {
@@ -132,6 +138,8 @@ impl<'a> ScriptedReader<'a> {
             fill_style: 0,
             fault_shape: 0,
             eof_as_error: false,
+            transients: Rc::new(Cell::new(0)),
+            last_transient: Rc::new(Cell::new(io::ErrorKind::Other)),
         }
     }
     pub fn with_fault(mut self, pos: usize, kind: io::ErrorKind) -> Self {
@@ -165,6 +173,14 @@ impl<'a> AsyncRead for ScriptedReader<'a> {
             }
             cx.waker().wake_by_ref();
             return Poll::Pending;
+        }
+        if let Some(Step::Fail(kind)) = step {
+            me.transients.set(me.transients.get() + 1);
+            me.last_transient.set(kind);
+            if me.keep_log {
+                me.log.push(ReadRec { pos: me.pos, cap, got: Some(usize::MAX) });
+            }
+            return Poll::Ready(Err(make_err(kind, me.fault_shape)));
         }
         if let Some((fp, kind)) = me.fault {
             if me.pos >= fp {
